@@ -96,6 +96,11 @@ func (u *Unit) execCall(fr *frame, st *State, call *ssa.CallCommon, instr ssa.Va
 	if cv, ok := fv.(*ClosureV); ok {
 		return u.staticCall(fr, st, cv.Fn, args, cv.Bind, resT, pos)
 	}
+	// context.CancelFunc values (context.WithTimeout / WithCancel): cancelling a context has no effect on the
+	// scheduler's or binder's model state
+	if isHarmlessFuncType(call.Value.Type()) {
+		return u.zeroOrNil(resT)
+	}
 	// call through a function value
 	if sc, ok := fv.(Sc); ok {
 		if cv, ok := u.closures[sc.T.S]; ok {
@@ -893,6 +898,8 @@ func (u *Unit) runDefers(fr *frame, st *State) {
 			u.staticCall(fr, run, cv.Fn, d.Args, cv.Bind, resT, d.Pos.Pos())
 		} else if bi, ok := d.Call.Value.(*ssa.Builtin); ok {
 			u.execBuiltin(fr, run, bi, d.Call, d.Args, resT, d.Pos.Pos())
+		} else if isHarmlessFuncType(d.Call.Value.Type()) {
+			// deferred context.CancelFunc: no effect on the modelled state
 		} else {
 			u.note("deferred call through unknown function value: heap havocked")
 			u.havocAll(run, "deferred unknown call")
@@ -972,6 +979,9 @@ func (u *Unit) scanCallWrites(fr *frame, call *ssa.CallCommon, instr ssa.Value, 
 	}
 	if c := u.w.funcFieldContract(call.Value); c != nil {
 		u.scanContractWrites(c, ws, call.Signature(), nil)
+		return
+	}
+	if isHarmlessFuncType(call.Value.Type()) {
 		return
 	}
 	ws.setAll("call through function value", nil)
@@ -1113,6 +1123,18 @@ func (u *Unit) scanContractWritesAt(c *Contract, ws *writeSet, call *ssa.CallCom
 		}
 	}
 	for _, it := range items {
+		fw := ws.fams[it.fam]
+		if fw == nil {
+			fw = &famWrite{sort: it.sort}
+			ws.fams[it.fam] = fw
+		}
+		fw.nonFresh = true
+		if it.whole {
+			fw.whole = true
+			continue
+		}
+		// a target that depends on a loop-variant argument: only ITS family is written at an unknown location
+		// (family-wide havoc at the loop head); the other targets of the call stay location-wise
 		txt := it.idx.S
 		if it.key != nil {
 			txt += it.key.S
@@ -1121,17 +1143,6 @@ func (u *Unit) scanContractWritesAt(c *Contract, ws *writeSet, call *ssa.CallCom
 			txt += it.rngArr.S + it.rngLo.S + it.rngHi.S
 		}
 		if strings.Contains(txt, "scan_unstable_") {
-			return false
-		}
-	}
-	for _, it := range items {
-		fw := ws.fams[it.fam]
-		if fw == nil {
-			fw = &famWrite{sort: it.sort}
-			ws.fams[it.fam] = fw
-		}
-		fw.nonFresh = true
-		if it.whole {
 			fw.whole = true
 			continue
 		}
@@ -1242,4 +1253,30 @@ func (u *Unit) pureMemoKey(st *State, c *Contract, params map[string]Value, resT
 		b.WriteString("|" + g + "=" + st.Ghost[g].S)
 	}
 	return b.String()
+}
+
+// isHarmlessFuncType: named function types of the standard library whose values have no effect on the modelled state.
+func isHarmlessFuncType(t types.Type) bool {
+	n, ok := t.(*types.Named)
+	if !ok || n.Obj().Pkg() == nil {
+		return false
+	}
+	return n.Obj().Pkg().Path() == "context" && (n.Obj().Name() == "CancelFunc" || n.Obj().Name() == "CancelCauseFunc")
+}
+
+func (u *Unit) zeroOrNil(resT types.Type) Value {
+	if resT == nil {
+		return nil
+	}
+	if tu, ok := resT.(*types.Tuple); ok {
+		if tu.Len() == 0 {
+			return nil
+		}
+		var vs TupleV
+		for i := 0; i < tu.Len(); i++ {
+			vs = append(vs, u.zeroValue(tu.At(i).Type()))
+		}
+		return vs
+	}
+	return u.zeroValue(resT)
 }
